@@ -510,6 +510,20 @@ func (V *Verifier) verifyFuncMode(fi *FuncInfo, fct *FuncContract, ceUnroll int)
 			res.Err = "break/continue escapes function body"
 		}
 	}
+	if ceUnroll == 0 && res.Err == "" {
+		// every anchor the contract names must have been reached by the symbolic execution: an anchor whose call or
+		// loop no longer exists in the code would otherwise drop its assertions and ghost updates without a trace
+		var missing []string
+		for a := range fct.Anchors {
+			if !fc.anchorsHit[a] {
+				missing = append(missing, a)
+			}
+		}
+		if len(missing) > 0 {
+			sort.Strings(missing)
+			res.Err = fmt.Sprintf("contract anchors never reached in the code: %s (the call/loop ordinal they name no longer exists, or lies on no path)", strings.Join(missing, ", "))
+		}
+	}
 	res.Obls = fc.obls
 	res.Paths = fc.paths
 	for a := range fc.assumptions {
@@ -779,6 +793,12 @@ func (st *State) runAnchor(anchor string, pos token.Pos) {
 		return
 	}
 	a := fc.curContract.Anchors[anchor]
+	if a != nil {
+		if fc.anchorsHit == nil {
+			fc.anchorsHit = map[string]bool{}
+		}
+		fc.anchorsHit[anchor] = true
+	}
 	if a == nil {
 		if strings.HasPrefix(anchor, "after-call") && fc.isRG() {
 			st.rgCheckStep(anchor, pos)
